@@ -234,6 +234,19 @@ func tryGoReplay(l *Loaded, cs *ContractSet, r *FuncResult, o *Obligation, rf *r
 		var expr string
 		ok := false
 		switch {
+		case shortType(t) == "[]uint8":
+			lv, has := o.Model[label+".len"]
+			if n, okn := parseIntValue(lv); has && okn && n.Sign() >= 0 && n.Int64() <= 6 {
+				var bs []string
+				for k := 0; k < int(n.Int64()); k++ {
+					b, okb := parseIntValue(o.Model[fmt.Sprintf("%s[%d]", label, k)])
+					if !okb {
+						b = big.NewInt('x')
+					}
+					bs = append(bs, fmt.Sprint(b.Int64()&0xff))
+				}
+				expr, ok = "[]byte{"+strings.Join(bs, ", ")+"}", true
+			}
 		case isStringType(t):
 			expr, ok = goStringLit(o.Model, label)
 		case isBoolType(t):
@@ -254,6 +267,11 @@ func tryGoReplay(l *Loaded, cs *ContractSet, r *FuncResult, o *Obligation, rf *r
 				intf, ok2 := "nil", true
 				if v, has := o.Model[label+".intf"]; has {
 					intf, ok2 = r.Ctx.goIfaceLit(v)
+					if !ok2 {
+						// payload of a kind the replay cannot rebuild (collections, functions): nil payload;
+						// acceptable whenever the kind does not carry a payload (empty, string, absent, error ...)
+						intf, ok2 = "nil", true
+					}
 				}
 				pr, ok3 := goStringLit(o.Model, label+".printrep")
 				if !ok3 {
@@ -296,6 +314,26 @@ func tryGoReplay(l *Loaded, cs *ContractSet, r *FuncResult, o *Obligation, rf *r
 	call = fn.Name() + "(" + strings.Join(callArgs, ", ") + ")"
 	if fn.Signature.Recv() != nil {
 		call = callArgs[0] + "." + fn.Name() + "(" + strings.Join(callArgs[1:], ", ") + ")"
+	}
+	// the rebuilt inputs must satisfy the contract's requires, otherwise the replay says nothing
+	useSynth := false
+	if !strings.Contains(strings.Join(args, " "), "VerifReplayMake") || true {
+		for _, cl := range ct.Requires {
+			if cl.Name == "" {
+				continue
+			}
+			approx := false
+			for _, w := range []string{"fresh(", "unchanged(", "allocated(", "funcIs(", "inClass(", "forallp(", "forallstr(", "forallint(", "ghostInt(", "ghostSeq(", "hasKey("} {
+				if strings.Contains(cl.Text, w) {
+					approx = true
+				}
+			}
+			if approx {
+				continue
+			}
+			useSynth = true
+			fmt.Fprintf(&body, "\t\tif !%s(%s) {\n\t\t\tdone <- \"INPUT-REJECTED: rebuilt input does not satisfy requires: %s\"\n\t\t\treturn\n\t\t}\n", cl.Name, strings.Join(callArgs, ", "), strings.ReplaceAll(strings.ReplaceAll(cl.Text, `\`, ``), `"`, `'`))
+		}
 	}
 	if nres > 0 {
 		fmt.Fprintf(&body, "\t\t%s := %s\n", strings.Join(lhs, ", "), call)
@@ -381,7 +419,7 @@ func TestVerifReplay(t *testing.T) {
 	pkgDir := filepath.Join(repoDir, strings.TrimPrefix(pkgPath, modPath+"/"))
 	write(filepath.Join(pkgDir, "verif_replay_gen_test.go"), test)
 	write(filepath.Join(repoDir, "pkg/mlrval/verif_replay_helper_gen.go"), replayHelperMlrval+replayHelperMlrval2)
-	if ensFn != "" {
+	if ensFn != "" || useSynth {
 		for k, v := range cs.Overlay {
 			write(k, string(v))
 		}
@@ -419,6 +457,8 @@ func TestVerifReplay(t *testing.T) {
 	switch {
 	case line == "":
 		rf.Note = "replay did not run to completion (see replay_output)"
+	case strings.HasPrefix(line, "INPUT-REJECTED"):
+		rf.Note = "not confirmed: " + line
 	case strings.HasPrefix(line, "PANIC") || strings.HasPrefix(line, "TIMEOUT"):
 		// a panic confirms safety obligations; for post obligations a panic is also a violation of "returns normally"
 		rf.Confirmed = true
